@@ -2,6 +2,7 @@
 // behind the line protocol of lean/Driver/C10.lean.
 //
 //   init                              -> ok                       (fresh CodeHolder, x64 environment, x86::Assembler attached)
+//   reinit | reset soft|hard          -> ok                       (CodeHolder::reinit(); reset(policy) + init + attach)
 //   sec <name|-> <align> <order>      -> ok <id> | err <Error>
 //   data <id> <hex>                   -> ok <bufsize> | err InvalidSection      (Assembler::section + embed)
 //   vsize <id> <hex64>                -> ok | err InvalidSection               (Section::set_virtual_size)
@@ -91,6 +92,20 @@ static std::string step(const std::string& line) {
   if (!g_code) do_init();
   CodeHolder& c = *g_code;
 
+  if (w[0] == "reinit") {
+    Error e = c.reinit();
+    return e == Error::kOk ? "ok" : err_name(e);
+  }
+  if (w[0] == "reset" && w.size() == 2) {
+    // reset(kSoft|kHard) detaches the assembler and forgets the environment: init and attach again
+    c.reset(w[1] == "hard" ? ResetPolicy::kHard : ResetPolicy::kSoft);
+    Environment env;
+    env.init(Arch::kX64);
+    Error e = c.init(env);
+    if (e != Error::kOk) return err_name(e);
+    e = c.attach(g_asm.get());
+    return e == Error::kOk ? "ok" : err_name(e);
+  }
   if (w[0] == "sec" && w.size() == 4) {
     uint64_t al; int64_t ord;
     if (!vh::parse_u64(w[2], al) || !vh::parse_i64(w[3], ord) || al > 0xFFFFFFFFull) return "bad-op";
